@@ -629,3 +629,16 @@ fn is_cfg_match(item: &ast::Item) -> bool {
         _ => false,
     }
 }
+
+#[cfg(feature = "verif-hooks")]
+pub(crate) mod verif_local_cfgif {
+    use rustc_ast::ast;
+
+    pub(crate) fn is_cfg_if(item: &ast::Item) -> bool {
+        super::is_cfg_if(item)
+    }
+
+    pub(crate) fn is_cfg_match(item: &ast::Item) -> bool {
+        super::is_cfg_match(item)
+    }
+}
